@@ -893,6 +893,8 @@ impl<'a, C: MlsConfig> Hist<'a, C> {
         let tree_before = self.w.anodes(c);
         // inputs of the transcript-hash / membership-tag formulas of this epoch (C13 rows)
         let th_interim_before = self.w.group(c).verif_interim_transcript_hash();
+        // a receiver as it is before the commit: it opens an ENCRYPTED commit for the transcript rows (on this copy)
+        let th_opener: Option<mls_rs::Group<C>> = active.iter().find(|&&i| i != c).map(|&i| self.w.group(i).clone());
         let th_membership_key = self.w.group(c).verif_key_schedule()[1].clone();
         let th_context = mls_rs::mls_rs_codec::MlsEncode::mls_encode_to_vec(self.w.group(c).context()).unwrap_or_default();
         let th_suite = self.w.members[c].setup.suite;
@@ -1039,6 +1041,25 @@ impl<'a, C: MlsConfig> Hist<'a, C> {
                     format!("{} {}", crate::util::hex(&confirmed_after), crate::util::hex(&interim_after)),
                 ));
                 rows.push((format!("mtag {th_suite} {} {} {}", crate::util::hex(&th_membership_key), crate::util::hex(&th_context), crate::util::hex(&cb)), "ok".into()));
+            }
+            if cb.len() > 4 && cb[2] == 0 && cb[3] == 2 {
+                // a PrivateMessage commit: the hashes cover wire format 2, the decrypted FramedContent and its signature
+                if let Some(mut g) = th_opener {
+                    let m = self.w.msgs[cmi].msg.clone();
+                    if let Ok((fc, sig, Some(tag))) = g.verif_open_private_message(&m) {
+                        rows.push((
+                            format!(
+                                "thp {th_suite} {} 2 {} {} {}",
+                                crate::util::hex(&th_interim_before),
+                                crate::util::hex(&fc),
+                                crate::util::hex(&sig),
+                                crate::util::hex(&tag)
+                            ),
+                            format!("{} {}", crate::util::hex(&confirmed_after), crate::util::hex(&interim_after)),
+                        ));
+                        self.rep.cover.insert("th:private-commit".into());
+                    }
+                }
             }
             for &mi in &round_props {
                 let from_member = active.iter().any(|&i| self.w.members[i].setup.name == self.w.msgs[mi].from);
